@@ -954,6 +954,12 @@ func (l *lexer) decodeUnicode() rune {
 		}
 	}
 
+	if rr > unicode.MaxRune {
+		// \u{110000} and up are not Unicode code points.
+		l.Error("invalid Unicode escape sequence")
+		return stopTok
+	}
+
 	if rr == null {
 		// \u0000, null, not supported.
 		l.Error(`\u0000 cannot be converted to text`)
